@@ -1,5 +1,6 @@
 (* C16 driver.
-   input  = (excl sfx tree)     excl: list of names; sfx: name; names = (codepoints...)
+   input  = (fixed excl sfx tree)   fixed: 0|1 (constructor before/after the fix); excl: list of names; sfx: name;
+            names = (codepoints...)
             tree = (files subs); files = ((name content)...); content = N | ((k v)...)
             subs = ((name tree)...)
    output = (exn E) | (ok SIDECARS DATA ISF)   ISF = is_sidecar_for matrix, sidecars x (sidecars ++ data)
@@ -43,9 +44,9 @@ let () = main_loop (fun x ->
      | Ok ((sfx, ext), ents) ->
        L [A "ok"; (match sfx with None -> A "N" | Some s -> L [A "S"; str_sx s]); str_sx ext;
           L (List.map (fun (k, v) -> L [str_sx k; str_sx v]) ents)])
-  | L [excl; sfx; t] ->
+  | L [fixed; excl; sfx; t] ->
     let excl = List.map sx_str (sx_list excl) in
-    (match group_init excl (sx_str sfx) (sx_tree t) with
+    (match group_init (sx_bool fixed) excl (sx_str sfx) (sx_tree t) with
      | Exn e -> L [A "exn"; exn_sx e]
      | Ok g ->
        let sc = g.g_sidecars in
